@@ -603,6 +603,50 @@ def check_intdiv(ctx, fb):
     ctx.floor("integer-division-arms", n, 4)
 
 
+def check_ring_ops(ctx, fb):
+    """R19-6: the ring operators have no case distinction and are the library's modular operation on the whole operands: the
+    integer evaluator computes a + b, a - b = a + (M - b), a * b with ruint's add_mod / mul_mod modulo M, the Montgomery evaluator with
+    the field's own +, -, *. A hand-written reduction (one conditional subtraction with the wrong comparison) returns a non-canonical
+    value for the operand pairs that sum to exactly p."""
+    M_ = lambda t: isinstance(t, tuple) and t and t[0] in ("constmem", "item") and str(t[1]).endswith("graph::M")
+    n = 0
+    for fn in ("eval", "eval_fr"):
+        it = fb.need(G + "Operation::" + fn)
+        eng = Engine(fb, inline=lambda i: False)
+        per = {}
+        for p in eng.run(it):
+            sel = [v for a, v in p.conds() if a == ("d", P(1))]
+            if sel and sel[0][0] == "eq":
+                per.setdefault(OPS[sel[0][1]], []).append(p)
+        for opn in ("Add", "Sub", "Mul"):
+            ps = per.get(opn, [])
+            why = None
+            if len(ps) != 1 or ps[0].kind != "return" or [a for a, v in ps[0].conds() if a != ("d", P(1))]:
+                why = "the arm has %d path(s) / extra conditions %s, specification one unconditional expression" % (
+                    len(ps), [(sh(a, 60), v) for p in ps for a, v in p.conds() if a != ("d", P(1))][:3])
+            else:
+                rv = eng.value_of(ps[0].store, ps[0].ret)
+                if fn == "eval_fr":
+                    want = {"Add": "fadd", "Sub": "fsub", "Mul": "fmul"}[opn]
+                    good = isinstance(rv, tuple) and rv[0] == want and (tuple(rv[1:]) == (P(2), P(3)) or (opn != "Sub" and set(rv[1:]) == {P(2), P(3)}))
+                else:
+                    good = isinstance(rv, tuple) and rv[0] == "call" and len(rv[2]) == 3 and M_(rv[2][2])
+                    if good and opn == "Add":
+                        good = rv[1].endswith("::add_mod") and set(rv[2][:2]) == {P(2), P(3)}
+                    elif good and opn == "Mul":
+                        good = rv[1].endswith("::mul_mod") and set(rv[2][:2]) == {P(2), P(3)}
+                    elif good:
+                        nb = [x for x in rv[2][:2] if x != P(2)]
+                        good = rv[1].endswith("::add_mod") and P(2) in rv[2][:2] and len(nb) == 1 and isinstance(nb[0], tuple) and nb[0][0] == "call" \
+                            and nb[0][1].endswith("::sub") and len(nb[0][2]) == 2 and M_(nb[0][2][0]) and nb[0][2][1] == P(3)
+                if not good:
+                    why = "the arm computes %s" % sh(rv, 160)
+            n += 1
+            ctx.check(why is None, "R19-6", "%s[%s] ring operation" % (fn, opn), "the library's modular %s of the whole operands, unconditionally" % opn.lower(),
+                      "%s::%s: %s" % (fn, opn, why), loc(it))
+    ctx.floor("ring-operator-arms", n, 6)
+
+
 def check_guards(ctx, fb):
     n = 0
     for cls, names in (("Operation", OPS),):
@@ -712,6 +756,7 @@ def run(ctx):
     check_sinks(ctx, fb)
     check_guards(ctx, fb)
     check_intdiv(ctx, fb)
+    check_ring_ops(ctx, fb)
     # fixtures
     fx = ctx.fb("fixtures")
     try:
